@@ -175,6 +175,8 @@ class C09(vlib.Driver):
                     size = 0; ops.append(["clear"])
             cases.append({"kind": "single", "obs": rng.choice(["vector", "vector64", "image", "dict", "tuple", "scalar"]),
                           "cap": cap, "ops": ops, "every": 7})
+            if i % 2:
+                cases[-1]["companion"] = True
         nma = 60 if tier == "quick" else 600
         for i in range(nma):
             cap = rng.randint(1, 7)
@@ -193,6 +195,8 @@ class C09(vlib.Driver):
             cases.append({"kind": "multi", "obs": okind, "cap": cap, "agents": nag, "ops": ops, "korder": i % 3})
             if i % 2:
                 cases[-1]["mixed"] = True      # fields whose dtype differs between transitions (seeded change C09-u2)
+            if i % 3 == 1:
+                cases[-1]["companion"] = True  # a second buffer used in between (state shared across objects)
         return cases
 
     # ---------- implementation
@@ -202,6 +206,11 @@ class C09(vlib.Driver):
     def run_single(self, case):
         cap, kind = case["cap"], case["obs"]
         buf = ReplayBuffer(max_size=cap)
+        # `companion`: a second buffer of the same capacity lives in the process and is used between the operations of
+        # the buffer under test, and one Sampler object is reused for all its samples (state kept at class / module
+        # level, or in the front end, would leak between them); the trace of the buffer under test must not change
+        comp = ReplayBuffer(max_size=cap) if case.get("companion") else None
+        smp = Sampler(memory=buf) if comp is not None else None
         nxt = 1
         trace, handed = [], []
         every = case.get("every", 1)
@@ -209,6 +218,12 @@ class C09(vlib.Driver):
         try:
             for oi, op in enumerate(case["ops"]):
                 rec = {"sample": None}
+                if comp is not None:
+                    if oi % 5 == 4:
+                        comp.clear()
+                    comp.add(make_transition(kind, [3000 + oi % 1000] * (1 + oi % min(cap, 3))))
+                    if oi % 3 == 0:
+                        comp.sample(1)
                 if op[0] == "add":
                     tags = list(range(nxt, nxt + op[1])); nxt += op[1]
                     rec["tags"] = tags
@@ -223,7 +238,7 @@ class C09(vlib.Driver):
                     try:
                         # every second sample goes through the Sampler front end the training loops use
                         if oi % 2:
-                            s = Sampler(memory=buf).sample(op[1], return_idx=True)
+                            s = (smp or Sampler(memory=buf)).sample(op[1], return_idx=True)
                         else:
                             s = buf.sample(op[1], return_idx=True)
                     finally:
@@ -295,8 +310,23 @@ class C09(vlib.Driver):
         cap, nag, okind = case["cap"], case["agents"], case["obs"]
         agents = [f"agent_{i}" for i in range(nag)]
         buf = MultiAgentReplayBuffer(cap, self.FIELDS, agents)
+        comp = MultiAgentReplayBuffer(cap, self.FIELDS, agents) if case.get("companion") else None
         k = 0
         trace = []
+
+        def comp_step(oi):
+            """use the companion buffer (same capacity, same agents) between two operations of the buffer under test"""
+            args = []
+            for f in self.FIELDS:
+                d = {}
+                for an in agents:
+                    v = self.ma_value(okind, f, lambda m: [4000 + oi % 500])
+                    v = {x: y[0] for x, y in v.items()} if isinstance(v, dict) else (tuple(y[0] for y in v) if isinstance(v, tuple) else v[0])
+                    d[an] = v
+                args.append(d)
+            comp.save_to_memory(*args, is_vectorised=False)
+            if oi % 2:
+                comp.sample(1)
 
         sc = 2 if case.get("mixed") else 1
 
@@ -316,8 +346,10 @@ class C09(vlib.Driver):
 
         orig = marb_mod.random.sample
         try:
-            for op in case["ops"]:
+            for oi_, op in enumerate(case["ops"]):
                 rec = {"sample": None, "args": None}
+                if comp is not None:
+                    comp_step(oi_)
                 if op[0] == "vect":
                     E = op[1]
                     ks = list(range(k, k + E)); k += E
@@ -555,6 +587,7 @@ class C09(vlib.Driver):
         if case["kind"] == "multi":
             labs.append(f"caller-dict-order={['agent_ids', 'reversed', 'rotated-per-field'][case.get('korder', 0)]}")
             labs.append("field-dtypes=" + ("mixed-int-and-float-per-transition" if case.get("mixed") else "uniform-float32"))
+        labs.append("companion-buffer=" + ("yes" if case.get("companion") else "no"))
         for op in case["ops"]:
             labs.append(f"op={case['kind']}:{op[0]}")
         if self.nontrivial(case, obs):
